@@ -319,4 +319,5 @@ func Run(ctx *common.Ctx) {
 	footer := "Definition res := Eval vm_compute in check_all cases.\nPrint res.\nDefinition gcount := Eval vm_compute in guard_count cases.\nPrint gcount.\n"
 	ctx.WriteShards("cases", header, "case", footer, terms, descs, 16)
 	ctx.ReplayKnownLisp()
+	replayKnown(ctx, dir, base)
 }
